@@ -159,5 +159,21 @@ pub fn standard(rng: &mut Rng, tier: &str) -> Vec<Item> {
     let mut v = test_images(if thorough { 400_000 } else { 60_000 });
     v.extend(generated_stills(rng, if thorough { 160 } else { 40 }, 24));
     v.extend(generated_animations(rng, if thorough { 80 } else { 20 }, 20));
+    v.extend(generated_vp8l(rng, if thorough { 120 } else { 30 }));
+    v
+}
+
+/// lossless files from the legal-stream generator (features libwebp's encoder never emits), wrapped as simple files
+pub fn generated_vp8l(rng: &mut Rng, n: usize) -> Vec<Item> {
+    use crate::gen_vp8l;
+    let mut p = gen_vp8l::Params::full();
+    p.deep = false;
+    let mut v = vec![];
+    for i in 0..n {
+        let g = gen_vp8l::generate(rng.next(), &p, false);
+        if g.payload.len() <= 30_000 && (g.width as u64) * (g.height as u64) <= 20_000 {
+            v.push(Item { name: format!("gen_vp8l_{i}_{}x{}", g.width, g.height), bytes: riff(&[(fourcc("VP8L"), g.payload)]), kind: "lossless" });
+        }
+    }
     v
 }
